@@ -3,26 +3,28 @@
 reports a violation (how much margin the 1M-run quick tier has). Applies patches to /repo transiently."""
 import subprocess, json, glob, os, re, sys
 def sh(c): return subprocess.run(c, shell=True, capture_output=True, text=True)
+REPO=os.environ.get("MUT_REPO","/repo"); VERIF=os.environ.get("MUT_VERIF","/verif"); OUT=os.environ.get("MUT_OUT","/verif/seeded/margins.json")
 items=[]
-for d in sorted(glob.glob("/verif/seeded/*/")):
+for d in sorted(glob.glob(VERIF+"/seeded/*/")):
     m=json.load(open(d+"meta.json")); items.append((os.path.basename(d.rstrip("/")), d+"patch.diff", m["breaks"]))
-mm=json.load(open("/verif/mutants/mutants.json"))
-for n,v in mm.items(): items.append((n, "/verif/mutants/%s.diff"%n, v["expected_catchers"]))
+mm=json.load(open(VERIF+"/mutants/mutants.json"))
+for n,v in mm.items(): items.append((n, VERIF+"/mutants/%s.diff"%n, v["expected_catchers"]))
 only=sys.argv[1:]
 out={}
-assert sh("git -C /repo status --porcelain").stdout.strip()==""
+assert sh("git -C %s status --porcelain"%REPO).stdout.strip()==""
 try:
     for name,patch,props in items:
         if only and name not in only: continue
-        if sh("git -C /repo apply "+patch).returncode!=0: print(name,"patch failed"); continue
+        if sh("git -C %s apply %s"%(REPO,patch)).returncode!=0: print(name,"patch failed"); continue
         res={}
         for p in props:
-            c=sh("cd /verif && timeout 900 bin/check %s quick"%p)
+            c=sh("cd %s && VERIF_REPO=%s timeout 900 bin/check %s quick"%(VERIF,REPO,p))
             idx=[int(x) for x in re.findall(r"signature=\S+ index=(\d+)", c.stdout)]
             res[p]=(c.returncode, min(idx) if idx else None)
         out[name]=res
         print("%-45s %s"%(name,res)); sys.stdout.flush()
-        sh("git -C /repo checkout -- .")
+        sh("git -C %s checkout -- ."%REPO)
+        json.dump(out,open(OUT,"w"),indent=1)
 finally:
-    sh("git -C /repo checkout -- .")
-json.dump(out,open("/verif/seeded/margins.json","w"),indent=1)
+    sh("git -C %s checkout -- ."%REPO)
+json.dump(out,open(OUT,"w"),indent=1)
